@@ -210,6 +210,8 @@ def contexts_for(tokens, value: int | None = None) -> list[str]:
         ctx += ["dl", "assign", "symbol", "macro", "if"]
         if value is not None and -2 <= value <= 6:
             ctx.append("for")       # loop bound: the body is assembled max(0, value) times
+        if value is not None and 0 <= value < 0x100:
+            ctx.append("shadow")    # the same text through an inner `=` symbol that shadows an outer constant
     return ctx
 
 
@@ -229,6 +231,8 @@ def program_for(ctx: str, text: str) -> str:
         return head + ".macro mm(pp) {\n.dl pp\n}\n" + f"mm({text})\n"
     if ctx == "if":
         return head + f".if {text} {{\n.db 1\n}} else {{\n.db 0\n}}\n"
+    if ctx == "shadow":
+        return head + f"zq := 1\n{{\nzq = {text}\nlda #zq\n.db zq\n}}\nlda #zq\n"
     if ctx == "for":
         return head + f".for zi := 0, {text} {{\n.db zi + 0x40\n}}\n.db 0xEE\n"
     raise ValueError(ctx)
@@ -241,6 +245,8 @@ def expected_bytes(ctx: str, v: int) -> bytes:
         return b"\xad" + le(v, 2)
     if ctx == "if":
         return b"\x01" if v != 0 else b"\x00"
+    if ctx == "shadow":
+        return bytes([0xA9, v, v, 0xA9, 1])
     if ctx == "for":
         return bytes(0x40 + i for i in range(max(0, v))) + b"\xee"
     return le(v, 3)
